@@ -206,10 +206,25 @@ Inductive obs :=
        (avail_all : bool)                         (* m.isAvail(k1,...,kn) over all probe keys *)
        (mapid : ent) (acceptall : ent)            (* m.map((k,v)->v).list(), m.accept((k,v)->true).list() *)
        (exported : ent)                           (* the (key, value) calls the exporter received *)
+       (xjson xxml : list (str * str))            (* export.JSON() / export.XML() of the value, parsed back by
+                                                     encoding/json resp. encoding/xml: (key, rendered value) in document order *)
        (eqs : list (nat * option bool * option bool)).   (* earlier handle j: (j, m = j, j = m) *)
 
-Definition c13_case := (N * list str * list (rop * obs))%type.
-Definition c13_id (c : c13_case) : N := fst (fst c).
+(* id, probe keys, the history with the observation of each new value, and - after the whole history -
+   every value observed once more (handle, observation): values are persistent, later operations on a
+   value (branching histories) must not change what an earlier result shows *)
+Definition c13_case := (N * list str * list (rop * obs) * list (nat * obs))%type.
+Definition c13_id (c : c13_case) : N := fst (fst (fst c)).
+Definition c13_keys (c : c13_case) : list str := snd (fst (fst c)).
+Definition c13_steps (c : c13_case) : list (rop * obs) := snd (fst c).
+Definition c13_finals (c : c13_case) : list (nat * obs) := snd c.
+
+Fixpoint sent_eqb (a b : list (str * str)) : bool :=
+  match a, b with
+  | [], [] => true
+  | (k, x) :: a', (k', y) :: b' => str_eqb k k' && str_eqb x y && sent_eqb a' b'
+  | _, _ => false
+  end.
 
 (* what a side (model of the implementation / specification) says about one value *)
 Record view := {
@@ -236,7 +251,7 @@ Definition oent_same (nd : bool) (a : option ent) (b : ent) : bool :=
 Definition check_view (nd : bool) (ndeq : nat -> bool) (ks : list str) (w : view) (o : obs) : bool :=
   match o with
   | ObErr => false
-  | ObOk size lst raw order probes avail_all mapid acceptall exported eqs =>
+  | ObOk size lst raw order probes avail_all mapid acceptall exported xjson xxml eqs =>
       N.eqb size (w_size w)
       && ent_same nd lst (w_list w)
       && (if nd then strs_perm order (map fst (w_list w)) && str_eqb raw (render val vshow (reorder (w_list w) order))
@@ -250,6 +265,8 @@ Definition check_view (nd : bool) (ndeq : nat -> bool) (ks : list str) (w : view
       && oent_same nd (w_mapid w) mapid
       && oent_same nd (w_acceptall w) acceptall
       && ent_eqb exported (w_export w)
+      && sent_eqb xjson (map (fun kv => (fst kv, vshow (snd kv))) (w_export w))
+      && sent_eqb xxml (map (fun kv => (fst kv, vshow (snd kv))) (w_export w))
       && forallb (fun e : nat * option bool * option bool => match e with (j, ab, ba) =>
                     match w_eq w j with
                     | Some (ab', ba') => eq_same (nd || ndeq j) ab ab' && eq_same (nd || ndeq j) ba ba'
@@ -274,9 +291,13 @@ Definition stor_view (e : env val) (s : stor val) : view := {|
                    | None => None
                    end |}.
 
-Fixpoint im_loop (ks : list str) (e : env val) (nds : list bool) (steps : list (rop * obs)) : bool :=
+Fixpoint im_loop (ks : list str) (finals : list (nat * obs)) (e : env val) (nds : list bool) (steps : list (rop * obs)) : bool :=
   match steps with
-  | [] => true
+  | [] => forallb (fun ho : nat * obs =>
+                     match handle val e (fst ho) with
+                     | Some s => check_view (nd_at nds (fst ho)) (nd_at nds) ks (stor_view e s) (snd ho)
+                     | None => false
+                     end) finals
   | (r, o) :: rest =>
       let res := step val e (to_op r) in
       let nd := nd_step nds r res in
@@ -284,10 +305,10 @@ Fixpoint im_loop (ks : list str) (e : env val) (nds : list bool) (steps : list (
        | None => match o with ObErr => true | _ => false end
        | Some s => check_view nd (nd_at nds) ks (stor_view (e ++ [res]) s) o
        end)
-      && im_loop ks (e ++ [res]) (nds ++ [nd]) rest
+      && im_loop ks finals (e ++ [res]) (nds ++ [nd]) rest
   end.
 
-Definition c13_im (c : c13_case) : bool := im_loop (snd (fst c)) [] [] (snd c).
+Definition c13_im (c : c13_case) : bool := im_loop (c13_keys c) (c13_finals c) [] [] (c13_steps c).
 
 (* ---------------------------------------------------------------- specification side: finite maps *)
 
@@ -330,16 +351,20 @@ Definition fm_view (e : senv val) (m : ent) : view := {|
 
 (* The property promises the same key set with the same values, not an order: the specification
    side is compared modulo permutation everywhere (the order fidelity of the model is c13_im's business). *)
-Fixpoint is_loop (ks : list str) (e : senv val) (steps : list (rop * obs)) : bool :=
+Fixpoint is_loop (ks : list str) (finals : list (nat * obs)) (e : senv val) (steps : list (rop * obs)) : bool :=
   match steps with
-  | [] => true
+  | [] => forallb (fun ho : nat * obs =>
+                     match shandle val e (fst ho) with
+                     | Some m => check_view true (fun _ => true) ks (fm_view e m) (snd ho)
+                     | None => false
+                     end) finals
   | (r, o) :: rest =>
       let res := sstep val e (to_op r) in
       (match res with
        | None => match o with ObErr => true | _ => false end
        | Some m => check_view true (fun _ => true) ks (fm_view (e ++ [res]) m) o
        end)
-      && is_loop ks (e ++ [res]) rest
+      && is_loop ks finals (e ++ [res]) rest
   end.
 
-Definition c13_is (c : c13_case) : bool := is_loop (snd (fst c)) [] (snd c).
+Definition c13_is (c : c13_case) : bool := is_loop (c13_keys c) (c13_finals c) [] (c13_steps c).
